@@ -11,6 +11,7 @@ import numpy as np
 from sim.sched import InvalidCase, Violation
 
 ID = "C05"
+NEEDS_ZYGOTE = True          # only used if a change makes gromov_hausdorff run joblib workers in processes
 TITLE = "mGH estimates always bracket the true modified Gromov-Hausdorff distance"
 CASE_TIMEOUT_S = 120.0
 PLAN = {
@@ -126,6 +127,11 @@ def gen_case(rng, tier):
 
 
 def run_case(case, sched):
+    with mg.parallel_world(sched, case):
+        return _run_case(case, sched)
+
+
+def _run_case(case, sched):
     inp, cfg = case["inputs"], case["config"]
     G, H = inp["G"], inp["H"]
     mg.check_graph_json(G)
